@@ -446,6 +446,10 @@ class Converter:
                 suggested_name = "const"
         ovar = self._generate_unique_name(suggested_name)
 
+        if isinstance(pyvalue, np.ndarray):
+            # Script-time constants are fixed at translation time: do not share the buffer
+            # of an array the caller may mutate later.
+            pyvalue = pyvalue.copy()
         try:
             tensor = ir.tensor(pyvalue, name=ovar)
         except Exception as exc:  # pylint: disable=broad-exception-caught
